@@ -13,7 +13,7 @@ CHECKS = {
     technique='symbolic execution of the table source + z3 linear/nonlinear real arithmetic queries against an exact power-series oracle',
     design='2/C08'),
  'C09': dict(
-    text='Bounded SMT validity checking: calc_inclination(_off) for l=2..7 executed symbolically with the rational quarter-angle parametrisation of I in [0,pi]; each entry compared with Kaula F_lmp^2 by a univariate z3 query (tolerance 1e-9); off tables at I=0; universal coefficients and lookup dictionaries by Int queries over symbolic indices.',
+    text='Bounded SMT validity checking: calc_inclination(_off) for l=2..7 executed symbolically with the rational quarter-angle parametrisation of I in [0,pi]; each entry compared with Kaula F_lmp^2 by a univariate z3 query (tolerance 1e-9); off tables at I=0; universal coefficients and lookup dictionaries by Int queries over symbolic indices. Round-2 addition: the package-level handles are bound through the real import lines and module-level dictionaries of inclination_funcs/__init__.py.',
     note='Trusted: z3, symx executor (de Moivre expansion of sin/cos of multiples of I/2), Kaula triple-sum oracle written in the harness.',
     technique='symbolic execution of the table source + univariate nonlinear real arithmetic queries in z3',
     design='2/C09'),
@@ -38,12 +38,12 @@ CHECKS = {
     technique='symbolic execution + z3 nonlinear real arithmetic; QF_FP (Float64) for the e=0 special value',
     design='2/C11'),
  'C07': dict(
-    text='Bounded SMT validity checking of the current .pyx source (transliterated to Python, extreme-value guards explored as paths): z3 decides M*J_published=1, passivity, |M|<=mu and an explicit high-frequency rate bound on the main path, the documented limit on every guard path, out[i]==impl(in[i]) for the prange helpers on extent-checked buffers (n<=3), the name lookup over a symbolic string, and legacy compliance == published == 1/M_compiled where no legacy mask is active.',
+    text='Bounded SMT validity checking of the current .pyx source (transliterated to Python, extreme-value guards explored as paths): z3 decides M*J_published=1, passivity, |M|<=mu and an explicit high-frequency rate bound on the main path, the documented limit on every guard path, out[i]==impl(in[i]) for the prange helpers on extent-checked buffers (n<=3), the name lookup over a symbolic string, and legacy compliance == published == 1/M_compiled where no legacy mask is active. Round-2 additions: the instance state is built through the real constructor chain (__init__ -> RheologyModelBase.__init__ -> change_args), a re-parameterised instance equals a fresh one attribute by attribute, and the guard constants lie outside the stated physical range (frequency 1e-12..1e3 rad/s, rigidity >= 1 Pa).',
     note='Trusted: z3, symx executor, the Cython->Python transliterator (cross-checked against the compiled module whenever that is in sync with the source), published compliances written in the harness. pow/tgamma/cos/sin are atoms with axioms. Replay runs the transliterated current source with floats (Cython is not available to rebuild).',
     technique='Cython source transliteration + path-exploring symbolic execution + z3 nonlinear real arithmetic / strings',
     design='2/C07'),
  'C15': dict(
-    text='Bounded SMT validity checking: calculate_strain_stress / calculate_volumetric_heating / calculate_displacements executed on a 2x2x2x1 grid of distinct complex symbols; z3 decides Hooke law component-wise, the three radial tractions (given the degree-l Laplace identity), the heating form == 2 Im(mu)|dev eps|^2 + Im(K)|tr eps|^2, its non-negativity (Cauchy-Schwarz query), the abs step on arbitrary inputs and vanishing for real moduli.',
+    text='Bounded SMT validity checking: calculate_strain_stress / calculate_volumetric_heating / calculate_displacements executed on a 2x2x2x1 grid of distinct complex symbols; z3 decides Hooke law component-wise, the three radial tractions (given the degree-l Laplace identity), the heating form == 2 Im(mu)|dev eps|^2 + Im(K)|tr eps|^2, its non-negativity (Cauchy-Schwarz query), the abs step on arbitrary inputs and vanishing for real moduli. Round-2 addition: call-site obligations for calculate_mode_response_coupled (degree, frequency, arrays and potential tuple handed to calculate_strain_stress, bound through its own signature).',
     note='Trusted: z3, symx executor (numpy object arrays of symbolic values). Degree l in 2..3 quick / 2..10 thorough.',
     technique='symbolic execution on a small symbolic grid + z3 nonlinear real arithmetic',
     design='2/C15'),
@@ -53,17 +53,17 @@ CHECKS = {
     technique='symbolic execution with transcendental atoms + two-copy monotonicity queries in z3 (nonlinear real arithmetic)',
     design='2/C19'),
  'C17': dict(
-    text='Bounded SMT validity checking: conversions.py and the transliterated conversions_x.pyx executed symbolically; inverse pairs, Kepler III, compiled==interpreted (including embedded constants) and the validation domains decided by z3; the OrbitBase setters executed on a duck-typed orbit with an arbitrary prior state: one update through each of six routes leaves (a, n, P) Kepler-consistent (inductive step for any update sequence).',
+    text='Bounded SMT validity checking: conversions.py and the transliterated conversions_x.pyx executed symbolically; inverse pairs, Kepler III, compiled==interpreted (including embedded constants) and the validation domains decided by z3; the OrbitBase setters executed on a duck-typed orbit with an arbitrary prior state: one update through each of six routes leaves (a, n, P) Kepler-consistent (inductive step for any update sequence). Round-2 addition: orbit updates in three configurations (moon, star is the host, host around a separate star with set_stellar_orbit) with the matching mass pair; public-API replay with real Orbit objects.',
     note='Trusted: z3, symx executor, cube-root/sqrt atoms with defining equations, pi as bounded symbol, world objects reduced to masses.',
     technique='symbolic execution (Python + transliterated Cython + extracted methods) + z3 nonlinear real arithmetic; one inductive step from an arbitrary state',
     design='2/C17'),
  'C20': dict(
-    text='Bounded SMT validity checking of the transliterated complex.pyx / special_x.pyx: principal-value identities of cf_hypot and cf_csqrt over the reals per explored path; C99 G.6.4.2 special values of cf_csqrt as QF_FP Float64 queries on the same source executed with IEEE values (one query per clause and path); cf_cipow and the cf_cpow integer fast path executed for every concrete exponent on a formal indeterminate; the double-factorial literals against n!! as solver queries over the table encoding; interpreted sqrt_neg against the principal root. cf_cabs, cf_carg, cf_cexp (ordinary and scaled branch, frexp/ldexp exact), cf_clog (all rescaling branches) and the general branch of cf_cpow are checked structurally over uninterpreted libm functions; the module constants are read from the source and have their own obligations.',
+    text='Bounded SMT validity checking of the transliterated complex.pyx / special_x.pyx: principal-value identities of cf_hypot and cf_csqrt over the reals per explored path; C99 G.6.4.2 special values of cf_csqrt as QF_FP Float64 queries on the same source executed with IEEE values (one query per clause and path); cf_cipow and the cf_cpow integer fast path executed for every concrete exponent on a formal indeterminate; the double-factorial literals against n!! as solver queries over the table encoding; interpreted sqrt_neg against the principal root. cf_cabs, cf_carg, cf_cexp (ordinary and scaled branch, frexp/ldexp exact), cf_clog (all rescaling branches) and the general branch of cf_cpow are checked structurally over uninterpreted libm functions; the module constants are read from the source and have their own obligations. Round-2 additions: csqrt / hypot with unbounded arguments and the overflow threshold as a positive symbol (covers the scaled branch), the default-argument call of sqrt_neg.',
     note='Trusted: z3 (NRA and QF_FP), transliterator, libm sqrt modelled as exact real sqrt in the real-arithmetic part. Few-ulp accuracy of finite results, cexp/clog values and the overflow-scaling branch are not decided (stated).',
     technique='Cython source transliteration + symbolic execution; z3 nonlinear real arithmetic and QF_FP Float64 (Annex G clauses)',
     design='2/C20'),
  'C05': dict(
-    text='Bounded SMT validity checking: the compressible solid diffeq methods of odes.pyx (transliterated) and the real sensitivity kernels are executed on symbolic complex states; z3 decides the exact local energy identity d/dr{r^2 Im[conj(y1)y2 + l(l+1)conj(y3)y4 + conj(y5)y6/(4piG)]} = H_mu Im mu (+ H_K Im K), the sum-of-squares form of H_mu (hence Im k <= 0), exactness of the finite-difference stencils, the surface evaluation of the flux through find_love_cf and the prefactor of calc_radial_tidal_heating. Both kernels\' finite-difference stencils and the heating prefactor for every degree of the tier, with real-function replays.',
+    text='Bounded SMT validity checking: the compressible solid diffeq methods of odes.pyx (transliterated) and the real sensitivity kernels are executed on symbolic complex states; z3 decides the exact local energy identity d/dr{r^2 Im[conj(y1)y2 + l(l+1)conj(y3)y4 + conj(y5)y6/(4piG)]} = H_mu Im mu (+ H_K Im K), the sum-of-squares form of H_mu (hence Im k <= 0), exactness of the finite-difference stencils, the surface evaluation of the flux through find_love_cf and the prefactor of calc_radial_tidal_heating. Both kernels\' finite-difference stencils and the heating prefactor for every degree of the tier, with real-function replays. Round-2 addition: shares the whole-function run of cf_radial_solver (re-dimensionalisation call sites) and the downward interface-map obligations of C02.',
     note='Trusted: z3, symx executor, transliterator. The global statement follows from the local identity by integration (fundamental theorem of calculus) with the flux vanishing at the centre for regular solutions; quadrature error and integrator accuracy are outside.',
     technique='symbolic execution of ODE right-hand sides and kernels + z3 nonlinear real arithmetic (pointwise identities)',
     design='2/C05'),
@@ -73,32 +73,32 @@ CHECKS = {
     technique='Cython source transliteration + symbolic execution (formal-indeterminate mode) + z3 identities; extent-checked stack arrays',
     design='2/C02'),
  'C03': dict(
-    text='Bounded SMT validity checking: the unit scaling of nondimensional.pyx is shown to be a symmetry of every link (eight ODE right-hand sides, boundary vectors sliced from cf_radial_solver, interface maps, Love extraction), redim(nondim(x))=x, an exactly rescaled planet has identical non-dimensional inputs, and reciprocity: dB/dr=0 for the bilinear form on every ODE class and B(R)=0 with the code\'s tidal/loading boundary vectors gives k_load = k_tidal - h_tidal. Real/imag packing of all eight ODE classes is an obligation (justifies the formal-indeterminate mode); multi-slice / multi-type indexing of the unit-conversion loops; C02 surface obligations are imported.',
+    text='Bounded SMT validity checking: the unit scaling of nondimensional.pyx is shown to be a symmetry of every link (eight ODE right-hand sides, boundary vectors sliced from cf_radial_solver, interface maps, Love extraction), redim(nondim(x))=x, an exactly rescaled planet has identical non-dimensional inputs, and reciprocity: dB/dr=0 for the bilinear form on every ODE class and B(R)=0 with the code\'s tidal/loading boundary vectors gives k_load = k_tidal - h_tidal. Real/imag packing of all eight ODE classes is an obligation (justifies the formal-indeterminate mode); multi-slice / multi-type indexing of the unit-conversion loops; C02 surface obligations are imported. Round-2 additions: a QF_FP Float64 obligation that a layer bound and the radius array are non-dimensionalised to the same double (AST slices of the kernel and of cf_radial_solver), and the arguments of the radial-function re-dimensionalisation bound through the kernel\'s own signature (whole-function run).',
     note='Trusted: z3, transliterator, formal-indeterminate mode (justified by a syntactic field-operations-only test of each kernel). Integrator convergence, B=0 at the centre and B across static-liquid interfaces are outside.',
     technique='Cython source transliteration + symbolic execution (formal indeterminates) + z3 rational-function identities; inductive invariant for reciprocity',
     design='2/C03'),
  'C04': dict(
-    text='Bounded SMT validity checking: all nine starting-condition functions are transliterated and executed for a homogeneous sphere; z=x j_{l+1}/j_l and phi_l, phi_{l+1} are atoms with their derivation rules, csqrt an atom with S^2=argument; the r-derivative of each starting vector is obtained by differentiating the encoding and z3 decides that ds/dr - A s lies in span{s_j, s_last} for the matching diffeq (flow-invariance of the span = independence of the start radius); truncated phi/psi/z series equal the exact series as polynomial identities; the driver dispatch table is executed for all flag combinations. The Bessel branch of cf_z_calc is checked structurally; the two Takeuchi solid families are also checked with the recorded y6/y5 index defect factored out, so that other changes to them are not masked by the known finding.',
+    text='Bounded SMT validity checking: all nine starting-condition functions are transliterated and executed for a homogeneous sphere; z=x j_{l+1}/j_l and phi_l, phi_{l+1} are atoms with their derivation rules, csqrt an atom with S^2=argument; the r-derivative of each starting vector is obtained by differentiating the encoding and z3 decides that ds/dr - A s lies in span{s_j, s_last} for the matching diffeq (flow-invariance of the span = independence of the start radius); truncated phi/psi/z series equal the exact series as polynomial identities; the driver dispatch table is executed for all flag combinations. The Bessel branch of cf_z_calc is checked structurally; the two Takeuchi solid families are also checked with the recorded y6/y5 index defect factored out, so that other changes to them are not masked by the known finding. Round-2 addition: shares C20\'s principal-root obligations for cf_csqrt (which the starting conditions call through cf_z_calc).',
     note='Trusted: z3, transliterator, differentiation of the encoding, the Bessel recurrences behind the atom rules. Truncation error of the series beyond their order, scipy spherical_jn and the integrator are outside.',
     technique='Cython source transliteration + symbolic execution with special-function atoms and derivation rules + z3 (minors of the span condition)',
     design='2/C04'),
  'C01': dict(
-    text='Bounded SMT validity checking of every algebraic link of the shooting pipeline for a uniform incompressible solid sphere: the polynomial regular solutions satisfy the real SolidStaticIncompressible.diffeq; pushed through the real boundary-vector construction, cf_apply_surface_bc (zgesv contract), cf_collapse_layer_solution and find_love_cf they give exactly the Kelvin k, h, l (rational identities in R, rho, mu, G); dynamic -> static at zero frequency and compressible -> incompressible as K -> infinity are identities/limits of the right-hand sides; the starting families span regular solutions (C04 obligations). Real/imag packing of the solid ODE classes and the collapse-loop / Love-extraction call sites (C02 obligations) are part of the pipeline.',
+    text='Bounded SMT validity checking of every algebraic link of the shooting pipeline for a uniform incompressible solid sphere: the polynomial regular solutions satisfy the real SolidStaticIncompressible.diffeq; pushed through the real boundary-vector construction, cf_apply_surface_bc (zgesv contract), cf_collapse_layer_solution and find_love_cf they give exactly the Kelvin k, h, l (rational identities in R, rho, mu, G); dynamic -> static at zero frequency and compressible -> incompressible as K -> infinity are identities/limits of the right-hand sides; the starting families span regular solutions (C04 obligations). Real/imag packing of the solid ODE classes and the collapse-loop / Love-extraction call sites (C02 obligations) are part of the pipeline. Round-2 addition: the replay takes the boundary vectors from the current source block with the obligation\'s own solve_for and runs the real solver on a homogeneous sphere.',
     note='Trusted: z3, transliterator, zgesv contract stub; the sympy-built polynomial basis is untrusted (re-checked by the solver). Convergence of the CyRK integrators within tolerance is NOT decided (no solver-based handle on numerical integration); stated as outside.',
     technique='symbolic execution of the transliterated pipeline + z3 rational-function identities against the closed form',
     design='2/C01'),
  'C06': dict(
-    text='Bounded symbolic path exploration of the control skeleton of cf_radial_solver / radial_solver (scale/restore, allocate/free with points-to for the nested storage, raise/return, try/finally; nondimensionalize and raise_on_fail as shared z3 Booleans, loops 0/1): per exit site z3 decides that no feasible path leaves the arrays scaled or an allocation live, and that failures raise under raise_on_fail; extents of the surface kernel and redim(nondim(x))=x included; every bad exit is replayed on the real compiled solver in a subprocess (exception, arrays before/after, exit status), plus fixed dynamic runs for liquid surface layers, validation and step-budget failures. Further obligations: a failure site passed with raise_on_fail off leaves error set (success = False); the wrapper\'s guards force all array and tuple lengths equal (sizes as z3 Ints).',
+    text='Bounded symbolic path exploration of the control skeleton of cf_radial_solver / radial_solver (scale/restore, allocate/free with points-to for the nested storage, raise/return, try/finally; nondimensionalize and raise_on_fail as shared z3 Booleans, loops 0/1): per exit site z3 decides that no feasible path leaves the arrays scaled or an allocation live, and that failures raise under raise_on_fail; extents of the surface kernel and redim(nondim(x))=x included; every bad exit is replayed on the real compiled solver in a subprocess (exception, arrays before/after, exit status), plus fixed dynamic runs for liquid surface layers, validation and step-budget failures. Further obligations: a failure site passed with raise_on_fail off leaves error set (success = False); the wrapper\'s guards force all array and tuple lengths equal (sizes as z3 Ints). Round-2 additions: whole-function runs with malformed solve_for values under Cython\'s implicit-exception semantics (typed str assignment, memoryview cast of an empty extent), an ownership obligation for the solution accessors (no view of a buffer released by __dealloc__), iteration budgets on the transliterated while loops of the interface / collapse kernels (termination), NaN / inf / zero bulk-density runs of the real solver with a NaN-aware comparison.',
     note='Trusted: z3, transliterator, skeleton executor (opaque conditions independent: over-approximation). CyRK internals, hangs and NaN material values inside the integrator are outside.',
     technique='symbolic execution of the control skeleton (path conditions in z3) + replay on the real build',
     design='2/C06'),
  'C18': dict(
-    text='Bounded symbolic exploration with crash points as solver variables: the real multiprocessing_run source is executed twice on an in-memory file system; in run 1 every file-system effect of case i carries the guard k_i > s (k_i symbolic progress counter = kill point; fail_i symbolic failing cases); run 2 restarts on that symbolic file system, forking on every existence/content query; z3 decides per obligation (no exception, one result per case, values equal to an uninterrupted run, no re-execution of completed cases, own case number/index) that no feasible (k, fail) reaches a bad outcome. Models are replayed on the REAL function: the interrupted directory is reconstructed from a complete real run and restarted for real.',
+    text='Bounded symbolic exploration with crash points as solver variables: the real multiprocessing_run source is executed twice on an in-memory file system; in run 1 every file-system effect of case i carries the guard k_i > s (k_i symbolic progress counter = kill point; fail_i symbolic failing cases); run 2 restarts on that symbolic file system, forking on every existence/content query; z3 decides per obligation (no exception, one result per case, values equal to an uninterrupted run, no re-execution of completed cases, own case number/index) that no feasible (k, fail) reaches a bad outcome. Models are replayed on the REAL function: the interrupted directory is reconstructed from a complete real run and restarted for real. Round-2 additions: chains of two (thorough: three) successive interruptions with independent symbolic progress counters; the file-system stub raises FileExistsError and truncates on mode \'w\' like the real one; chain-aware real replay.',
     note='Trusted: z3, the FS/pool/psutil stubs (cases touch disjoint files, so per-case counters cover all interleavings), header written before the interruption. Grids up to 2x2(+must-include) / 3x2 thorough, <=1 failing case, one interruption. Real process kills and partial writes are outside.',
     technique='symbolic execution of the real function over a symbolic file system with crash counters as z3 integers (path exploration + z3), replay on the real code',
     design='2/C18'),
  'C16': dict(
-    text='Bounded SMT validity checking of the construction bookkeeping: find_geometry_from_config (all 32x4 presence patterns of the configuration keys, symbolic values), PhysicalObjSpherical.set_geometry (symbolic geometry, np.linspace exact, <=4 slices) and 3-layer stacks: contiguity, strictly increasing slices, telescoping volume sums, enclosed-mass monotonicity, surface gravity, world mass rule; scale_from_world / build_from_world executed on real dict graphs with symbolic leaves (lengths scaled, volume fractions preserved, inputs not mutated); the variant-naming block executed on a z3 string with an unwinding assertion on its loop for chains of derivations.',
+    text='Bounded SMT validity checking of the construction bookkeeping: find_geometry_from_config (all 32x4 presence patterns of the configuration keys, symbolic values), PhysicalObjSpherical.set_geometry (symbolic geometry, np.linspace exact, <=4 slices) and 3-layer stacks: contiguity, strictly increasing slices, telescoping volume sums, enclosed-mass monotonicity, surface gravity, world mass rule; scale_from_world / build_from_world executed on real dict graphs with symbolic leaves (lengths scaled, volume fractions preserved, inputs not mutated); the variant-naming block executed on a z3 string with an unwinding assertion on its loop for chains of derivations. Round-2 additions: mixed derivation chains (default names, explicit symbolic names, scale_from_world) with the invariant that every derived configuration records the name it was built with; LayeredWorld.reinit leaves the configuration untouched.',
     note='Trusted: z3 (NRA and strings), symx executor, method extraction with a duck-typed object. The full class machinery of world construction and the shipped configurations are reached only through the replay runner (real build_world/scale_from_world/build_from_world).',
     technique='symbolic execution of extracted methods + z3 nonlinear real arithmetic and string theory; unwinding assertion for the naming loop; replay on the real API',
     design='2/C16'),
